@@ -170,6 +170,93 @@ theorem tracks_exactly_after_round {q : Q} (h : Reachable q) (ids : List Nat) (h
   rw [key adds _ hs.1, (hs.2.2.1 hne).1 b, hadds]
   cases tracked q b <;> cases ids.contains b <;> rfl
 
+/-- one round of the server loop: `MaybeRemoveMissing ids`, then `AddOrUpdate` for every id of `ids` -/
+def serverRound (q : Q) (ids : List Nat) (adds : List (Opts × Int)) : Q :=
+  adds.foldl (fun q a => addOrUpdate q a.1 a.2) (removeMissing q ids).1
+
+theorem wf_adds (adds : List (Opts × Int)) (q : Q) (hw : WF q) (b : Nat) :
+    WF (adds.foldl (fun q a => addOrUpdate q a.1 a.2) q) ∧
+    tracked (adds.foldl (fun q a => addOrUpdate q a.1 a.2) q) b = (tracked q b || (adds.map (·.1.rid)).contains b) := by
+  induction adds generalizing q with
+  | nil => simp [hw]
+  | cons a r ih =>
+    simp only [List.foldl_cons, List.map_cons, List.contains_cons]
+    have ha := addOrUpdate_spec q a.1 a.2 hw
+    have := ih _ ha.1
+    exact ⟨this.1, by rw [this.2, ha.2.1 b, Bool.or_assoc]⟩
+
+theorem length_le_of_subset_nodup : ∀ (a b : List Nat), a.Nodup → (∀ x ∈ a, x ∈ b) → a.length ≤ b.length := by
+  intro a
+  induction a with
+  | nil => intro b _ _; simp
+  | cons x r ih =>
+    intro b hn hs
+    rw [List.nodup_cons] at hn
+    have hx : x ∈ b := hs x (by simp)
+    have := ih (b.erase x) hn.2 (fun y hy => (List.mem_erase_of_ne (fun e => hn.1 (by rw [← e]; exact hy))).mpr (hs y (by simp [hy])))
+    rw [List.length_erase_of_mem hx] at this
+    have hpos : 0 < b.length := List.length_pos_of_mem hx
+    simp only [List.length_cons]; omega
+
+/-- **the heuristic shortcut converges**: `MaybeRemoveMissing` skips its work when the number of tracked repositories
+    equals the number of ids it is given, which can be wrong for one round; after two rounds of the server loop with the
+    same duplicate-free `ids` the queue tracks exactly `ids` -/
+theorem two_rounds_converge {q : Q} (h : Reachable q) (ids : List Nat) (hnd : ids.Nodup)
+    (adds1 adds2 : List (Opts × Int)) (h1 : adds1.map (·.1.rid) = ids) (h2 : adds2.map (·.1.rid) = ids) (b : Nat) :
+    tracked (serverRound (serverRound q ids adds1) ids adds2) b = ids.contains b := by
+  have hw := reachable_wf h
+  -- facts about one round from any well-formed state
+  have round : ∀ (q : Q) (adds : List (Opts × Int)), WF q → adds.map (·.1.rid) = ids →
+      WF (serverRound q ids adds) ∧
+      (q.items.length ≠ ids.length → ∀ b, tracked (serverRound q ids adds) b = ids.contains b) ∧
+      (q.items.length = ids.length → ∀ b, tracked (serverRound q ids adds) b = (tracked q b || ids.contains b)) := by
+    intro q adds hw ha
+    have hs := removeMissing_spec q ids hw
+    refine ⟨(wf_adds adds _ hs.1 0).1, ?_, ?_⟩
+    · intro hne b
+      unfold serverRound
+      rw [(wf_adds adds _ hs.1 b).2, (hs.2.2.1 hne).1 b, ha]
+      cases tracked q b <;> cases ids.contains b <;> rfl
+    · intro heq b
+      unfold serverRound
+      rw [(wf_adds adds _ hs.1 b).2, hs.2.1 heq, ha]
+  have r1 := round q adds1 hw h1
+  have r2 := round (serverRound q ids adds1) adds2 r1.1 h2
+  by_cases hlen2 : (serverRound q ids adds1).items.length = ids.length
+  case neg => exact r2.2.1 hlen2 b
+  case pos =>
+    rw [r2.2.2 hlen2 b]
+    by_cases hlen1 : q.items.length = ids.length
+    case neg => rw [r1.2.1 hlen1 b]; cases ids.contains b <;> rfl
+    case pos =>
+      -- both rounds skipped: the first round's state tracks T ∪ ids in as many entries as ids has, so T ⊆ ids
+      rw [r1.2.2 hlen1 b]
+      cases hb : ids.contains b
+      · -- b tracked before but not in ids would make the tracked set strictly larger than ids
+        cases ht : tracked q b
+        · rfl
+        · exfalso
+          let T1 := (serverRound q ids adds1).items.map (·.id)
+          have hT1n : T1.Nodup := r1.1.1.keys
+          have hbT1 : b ∈ T1 := (tracked_iff_mem _ b).mp (by rw [r1.2.2 hlen1 b, ht]; rfl)
+          have hsub : ∀ x ∈ ids, x ∈ T1.erase b := by
+            intro x hx
+            have hxb : x ≠ b := fun e => by
+              rw [e] at hx
+              have : ids.contains b = true := by simpa using hx
+              rw [hb] at this; cases this
+            apply (List.mem_erase_of_ne hxb).mpr
+            apply (tracked_iff_mem _ x).mp
+            rw [r1.2.2 hlen1 x]
+            have : ids.contains x = true := by simpa using hx
+            rw [this]; simp
+          have := length_le_of_subset_nodup ids (T1.erase b) hnd hsub
+          rw [List.length_erase_of_mem hbT1] at this
+          have hl : T1.length = ids.length := by simpa [T1] using hlen2
+          have hpos : 0 < T1.length := List.length_pos_of_mem hbT1
+          omega
+      · simp
+
 /-- **the text before the fix is wrong** (DESIGN §8): `MaybeRemoveMissing` keyed by `item.opts.RepoID` leaves a repository
     that `SetIndexed` created tracked although it is not in `ids`, and reports id 0 instead -/
 theorem remove_missing_as_written_false :
